@@ -397,3 +397,110 @@ Proof.
   replace (b + 2 + k) with (b + (2 + k)) by lia.
   split; [exact KT|]. split; [apply ST; left; lia|]. right. apply in_seq. lia.
 Qed.
+
+(* ------------------------------------------------------------------ depends_on edges (C04) *)
+Lemma map_opt_In_fwd {A B} (f : A -> option B) l l' x : map_opt f l = Some l' -> In x l -> exists y, f x = Some y /\ In y l'.
+Proof.
+  intros H Hx. apply In_nth_error in Hx as [i Hi]. destruct (map_opt_nth_fwd f l l' H i x Hi) as [y [Hy Hf]].
+  exists y. split; [exact Hf|eapply nth_error_In; exact Hy].
+Qed.
+
+(* For every project: the task of a test that declares depends_on d has, among its on-success dependencies, the task of the
+   first test with path d (and that task is a test task with exactly that path). *)
+Theorem depends_on_edges si force suites g i t :
+  build_tasks si force suites = Some g ->
+  nth_error (build_tasks_structural si force suites) i = Some t -> t_kind t = KTest ->
+  forall d, In d (deps_lookup (deps_table suites) (t_path t)) ->
+    exists j td, lookup_test_task (build_tasks_structural si force suites) d 0 = Some j /\
+                 In j (t_succ (get_task g i)) /\
+                 nth_error (build_tasks_structural si force suites) j = Some td /\ t_kind td = KTest /\ t_path td = d /\
+                 t_kind (get_task g j) = KTest /\ t_path (get_task g j) = d.
+Proof.
+  intros Hg Hi Hk d Hd. unfold build_tasks, add_test_deps in Hg.
+  destruct (map_opt_nth_fwd _ _ _ Hg i t Hi) as [t' [Ht' Hf]]. rewrite Hk in Hf.
+  destruct (map_opt (fun p => lookup_test_task (build_tasks_structural si force suites) p 0)
+                    (deps_lookup (deps_table suites) (t_path t))) as [ids|] eqn:Hids; [|discriminate].
+  inversion Hf. subst t'. destruct (map_opt_In_fwd _ _ _ d Hids Hd) as [j [Hj Hin]].
+  destruct (lookup_test_task_spec _ _ _ _ Hj) as [_ [td [Htd [Hkd Hpd]]]]. rewrite Nat.sub_0_r in Htd.
+  exists j, td. split; [exact Hj|]. split; [rewrite (get_task_nth _ _ _ Ht'); simpl; apply in_app_iff; right; exact Hin|].
+  split; [exact Htd|]. split; [exact Hkd|]. split; [exact Hpd|].
+  destruct (add_test_deps_sc _ _ _ Hg j td Htd) as [K _].
+  destruct (map_opt_nth_fwd _ _ _ Hg j td Htd) as [tj [Htj Hfj]]. rewrite (get_task_nth _ _ _ Htj).
+  rewrite Hkd in Hfj. destruct (map_opt _ (deps_lookup (deps_table suites) (t_path td))) as [ids'|]; [|discriminate].
+  inversion Hfj. simpl. split; [reflexivity|exact Hpd].
+Qed.
+
+(* ------------------------------------------------------------------ the session tasks *)
+Lemma blocks_shape_gen g f pb0 parent e l :
+  (forall x b, In x l -> embeds g b (f b x) ->
+     block_shape g pb0 b (length (f b x)) /\ In parent (all_deps (get_task g b))) ->
+  forall b, embeds g b (concat (blocks f l b)) ->
+  (forall x, In x (block_ends (blocks f l b) b) -> In x (all_deps (get_task g e))) ->
+  range (fun i => dep_path g i parent) b (length (concat (blocks f l b))) /\
+  range (fun i => dep_path g e i) b (length (concat (blocks f l b))).
+Proof.
+  intros Hf. induction l as [|x r IH]; intros b He Hends; simpl; [split; apply range_nil|].
+  simpl in He, Hends. rewrite app_length.
+  destruct (Hf x b (or_introl eq_refl) (embeds_app_l _ _ _ _ He)) as [Sh Hp].
+  destruct (IH (fun y b' Hy => Hf y b' (or_intror Hy)) (b + length (f b x)) (embeds_app_r _ _ _ _ He)
+               (fun y Hy => Hends y (or_intror Hy))) as [IHd IHu].
+  set (n := length (f b x)) in *. pose proof (bs_len _ _ _ _ Sh) as Hn.
+  assert (Hpar : dep_path g b parent) by (apply dp_one; exact Hp).
+  assert (Hend : dep_path g e (b + n - 1)) by (apply dp_one; apply Hends; left; reflexivity).
+  split; apply range_app; try assumption.
+  - intros k Hk. destruct k as [|k]; [rewrite Nat.add_0_r; exact Hpar|].
+    apply dep_path_trans with b; [|exact Hpar]. replace (b + S k) with (S b + k) by lia. apply (bs_down _ _ _ _ Sh). lia.
+  - intros k Hk. destruct (Nat.eq_dec k (n - 1)) as [E|NE]; [subst k; replace (b + (n - 1)) with (b + n - 1) by lia; exact Hend|].
+    apply dep_path_trans with (b + n - 1); [exact Hend|]. apply (bs_up _ _ _ _ Sh). lia.
+Qed.
+
+Lemma suite_begin_session si force ss pb prefix inh base s g x :
+  embeds g base (suite_tasks si force ss pb prefix inh base s) -> ss = Some x -> In x (all_deps (get_task g base)).
+Proof.
+  intros He Hx. destruct s as [n d h inj ts subs]. rewrite suite_tasks_eq in He. cbv zeta in He.
+  apply embeds_app_l in He. apply (embeds_single _ _ _ He). unfold all_deps. simpl. subst ss. apply in_app_iff. left. left. reflexivity.
+Qed.
+
+(* With session-scoped fixtures scheduled: the session setup task is a transitive dependency of every other task and the
+   session teardown task transitively depends on every other task, for every project (with at least one suite). *)
+Theorem session_brackets si force suites g :
+  si_session si = true -> suites <> [] -> build_tasks si force suites = Some g ->
+  t_kind (get_task g 0) = KSessionSetup /\ t_kind (get_task g (length g - 1)) = KSessionTeardown /\ 2 <= length g /\
+  (forall i, 0 < i < length g -> dep_path g i 0) /\
+  (forall i, i < length g - 1 -> dep_path g (length g - 1) i).
+Proof.
+  intros Hs Hne Hg. unfold build_tasks in Hg.
+  pose proof (add_test_deps_embeds _ _ _ Hg) as He. pose proof (add_test_deps_sc _ _ _ Hg) as Hsc.
+  destruct (add_test_deps_nth _ _ _ Hg) as [Hlen _].
+  unfold build_tasks_structural in *. rewrite suites_tasks_eq in *. rewrite Hs in *.
+  set (f := suite_tasks si force (Some 0) None [] false) in *.
+  set (bl := blocks f suites 1) in *.
+  set (TS := mkTask KSessionSetup [] [] []) in *. set (TT := mkTask KSessionTeardown [] [] (block_ends bl 1)) in *.
+  set (c := length (concat bl)) in *.
+  assert (Hl : length g = 2 + c) by (rewrite Hlen, !app_length; simpl; fold c; lia).
+  pose proof (embeds_app_r _ _ _ _ He) as He1. simpl in He1.
+  pose proof (embeds_app_l _ _ _ _ He1) as EC. apply embeds_app_r in He1. fold c in He1.
+  assert (K0 : t_kind (get_task g 0) = KSessionSetup) by (destruct (Hsc 0 TS eq_refl) as [K _]; exact K).
+  assert (HT : nth_error ([TS] ++ concat bl ++ [TT]) (1 + c) = Some TT).
+  { simpl. rewrite nth_error_app2 by (fold c; lia). fold c. replace (c - c) with 0 by lia. reflexivity. }
+  assert (KT : t_kind (get_task g (1 + c)) = KSessionTeardown) by (destruct (Hsc _ _ HT) as [K _]; exact K).
+  assert (HE : forall x, In x (block_ends bl 1) -> In x (all_deps (get_task g (1 + c)))).
+  { intros x Hx. apply (embeds_single _ _ _ He1). unfold all_deps, TT. simpl. rewrite app_nil_r. exact Hx. }
+  destruct (blocks_shape_gen g f None 0 (1 + c) suites) with (b := 1) as [Cd Cu].
+  - intros x b Hx Hb. split; [apply suite_shape; exact Hb|eapply suite_begin_session; [exact Hb|reflexivity]].
+  - exact EC.
+  - exact HE.
+  - fold bl in Cd, Cu. fold c in Cd, Cu. replace (length g - 1) with (1 + c) by lia.
+    (* the teardown reaches the setup through the end of the first suite *)
+    assert (H0 : dep_path g (1 + c) 0).
+    { destruct suites as [|s0 rest]; [congruence|]. simpl in bl.
+      assert (Hn : 1 <= length (f 1 s0)) by apply suite_tasks_nonempty.
+      assert (Hc : length (f 1 s0) <= c) by (unfold c, bl; simpl; rewrite app_length; lia).
+      apply dep_path_trans with (1 + length (f 1 s0) - 1).
+      - apply dp_one. apply HE. unfold bl. simpl. left. reflexivity.
+      - replace (1 + length (f 1 s0) - 1) with (1 + (length (f 1 s0) - 1)) by lia. apply Cd. lia. }
+    split; [exact K0|]. split; [exact KT|]. split; [lia|]. split.
+    + intros i Hi. destruct (Nat.eq_dec i (1 + c)) as [E|NE]; [subst i; exact H0|].
+      replace i with (1 + (i - 1)) by lia. apply Cd. lia.
+    + intros i Hi. destruct i as [|i]; [exact H0|]. replace (S i) with (1 + i) by lia. apply Cu. lia.
+Qed.
